@@ -1,4 +1,259 @@
-//! c19 ops (filled in below).
-pub fn dispatch(_op: &str, _args: &[String]) -> bool {
+//! C19 ops.
+//!   c19-write    payload `opts\tdoc` -> {"svg": Tree::to_string, "nodes":[{"path","id","kind","lbbox"|null,"abs_bbox"}]}
+//!   export-pair  payload `opts\tdoc\tid\tsingle_doc\tscale`
+//!                A = resvg::render_node(node_by_id(id), scale) into a canvas of ceil(abs layer box * scale);
+//!                B = resvg::render(single_doc) under scale * translate(-box origin) into the same canvas
+//!                -> {"none":bool,"w","h","ndiff","nbig","max","nonblank_a","nonblank_b","bbox":[x,y,w,h]}
+//!   export-ts    payload `opts\tdoc`  for every isolated group: the transform recorded by the first `layer` trace
+//!                event of render_node (identity and scale 2) next to the node's ts / abs_ts / abs layer box
+//!   node-by-id   payload `opts\tdoc\tid,id,...`  Tree::node_by_id vs the harness's own pre-order walk
+use crate::dump::{esc, num};
+use crate::util::*;
+use tiny_skia::Transform;
+
+fn kind(n: &usvg::Node) -> &'static str {
+    match n {
+        usvg::Node::Group(_) => "g",
+        usvg::Node::Path(_) => "path",
+        usvg::Node::Image(_) => "image",
+        usvg::Node::Text(_) => "text",
+    }
+}
+
+fn walk<'a>(g: &'a usvg::Group, path: &str, out: &mut Vec<(String, &'a usvg::Node)>) {
+    for (i, n) in g.children().iter().enumerate() {
+        let p = format!("{}/{}", path, i);
+        out.push((p.clone(), n));
+        if let usvg::Node::Group(ref cg) = n {
+            walk(cg, &p, out);
+        }
+    }
+}
+
+fn rect4(x: f32, y: f32, w: f32, h: f32) -> String {
+    format!("[{},{},{},{}]", num(x), num(y), num(w), num(h))
+}
+
+fn ts6(t: Transform) -> String {
+    format!("[{},{},{},{},{},{}]", num(t.sx), num(t.ky), num(t.kx), num(t.sy), num(t.tx), num(t.ty))
+}
+
+fn op_write(payload: &str) -> String {
+    let (opts, doc) = payload.split_once('\t').unwrap_or(("", payload));
+    let tree = match parse_doc(opts, doc) {
+        Ok(t) => t,
+        Err(e) => return format!("{{\"error\":{}}}", esc(&e)),
+    };
+    let svg = tree.to_string(&usvg::WriteOptions::default());
+    let mut nodes = Vec::new();
+    walk(tree.root(), "", &mut nodes);
+    let mut items = Vec::new();
+    for (p, n) in &nodes {
+        let lb = match n.abs_layer_bounding_box() {
+            Some(b) => rect4(b.x(), b.y(), b.width(), b.height()),
+            None => "null".to_string(),
+        };
+        let ab = n.abs_bounding_box();
+        items.push(format!(
+            "{{\"path\":{},\"id\":{},\"kind\":\"{}\",\"lbbox\":{},\"abs_bbox\":{}}}",
+            esc(p), esc(n.id()), kind(n), lb, rect4(ab.x(), ab.y(), ab.width(), ab.height())
+        ));
+    }
+    format!(
+        "{{\"svg\":{},\"size\":[{},{}],\"nodes\":[{}]}}",
+        esc(&svg), num(tree.size().width()), num(tree.size().height()), items.join(",")
+    )
+}
+
+fn op_export_pair(payload: &str) -> String {
+    let f: Vec<&str> = payload.split('\t').collect();
+    if f.len() < 5 {
+        return "{\"error\":\"bad payload\"}".to_string();
+    }
+    let tree = match parse_doc(f[0], f[1]) {
+        Ok(t) => t,
+        Err(e) => return format!("{{\"error\":{}}}", esc(&e)),
+    };
+    let node = match tree.node_by_id(f[2]) {
+        Some(n) => n,
+        None => return "{\"error\":\"node_by_id returned None\"}".to_string(),
+    };
+    let s: f32 = f[4].parse().unwrap_or(1.0);
+    let ab = node.abs_bounding_box();
+    let lb = match node.abs_layer_bounding_box() {
+        Some(b) => b,
+        None => {
+            // must be a zero-sized node: report what render_node says on a 1x1 canvas
+            let mut pm = tiny_skia::Pixmap::new(1, 1).unwrap();
+            let r = resvg::render_node(node, Transform::identity(), &mut pm.as_mut());
+            return format!(
+                "{{\"none\":{},\"no_layer_box\":true,\"kind\":\"{}\",\"abs_bbox\":{}}}",
+                r.is_none(), kind(node), rect4(ab.x(), ab.y(), ab.width(), ab.height())
+            );
+        }
+    };
+    let w = (lb.width() * s).ceil();
+    let h = (lb.height() * s).ceil();
+    if !(w >= 1.0 && h >= 1.0 && w <= 2500.0 && h <= 2500.0) {
+        return format!("{{\"skipped\":\"canvas {}x{}\"}}", w, h);
+    }
+    let (w, h) = (w as u32, h as u32);
+    let mut pa = tiny_skia::Pixmap::new(w, h).unwrap();
+    resvg::verif_hooks::start_trace();
+    let r = resvg::render_node(node, Transform::from_scale(s, s), &mut pa.as_mut());
+    let ev_a = resvg::verif_hooks::take_trace();
+    let single = match parse_doc(f[0], f[3]) {
+        Ok(t) => t,
+        Err(e) => return format!("{{\"error\":{}}}", esc(&format!("single-node document: {}", e))),
+    };
+    let tb = Transform::from_scale(s, s).pre_translate(-lb.x(), -lb.y());
+    resvg::verif_hooks::start_trace();
+    let pb = render_tree(&single, w, h, tb).unwrap();
+    let ev_b = resvg::verif_hooks::take_trace();
+    let near = filter_edge_near_int(&ev_a) || filter_edge_near_int(&ev_b);
+    let (n1, mx) = diff_pixmaps(&pa, &pb, 1);
+    let (nbig, _) = diff_pixmaps(&pa, &pb, 72);
+    let na = pa.data().chunks_exact(4).filter(|p| p[3] != 0).count();
+    let nb = pb.data().chunks_exact(4).filter(|p| p[3] != 0).count();
+    format!(
+        "{{\"none\":{},\"kind\":\"{}\",\"w\":{},\"h\":{},\"ndiff\":{},\"nbig\":{},\"max\":{},\"nonblank_a\":{},\"nonblank_b\":{},\"filter_edge_near_int\":{},\"bbox\":{}}}",
+        r.is_none(), kind(node), w, h, n1, nbig, mx, na, nb, near, rect4(lb.x(), lb.y(), lb.width(), lb.height())
+    )
+}
+
+/// some filter layer of the trace has a device-space region edge within 1e-3 of an integer (floor / ceil of
+/// to_int_rect can then flip with the last bit of an f32 transform)
+fn filter_edge_near_int(events: &[String]) -> bool {
+    for e in events {
+        if !e.contains("\"ev\":\"layer\"") || e.contains("\"filters\":0,") {
+            continue;
+        }
+        if let Some(i) = e.find("\"bbox\":[") {
+            let rest = &e[i + 8..];
+            if let Some(j) = rest.find(']') {
+                let v: Vec<f64> = rest[..j].split(',').filter_map(|x| x.trim().parse().ok()).collect();
+                if v.len() == 4 {
+                    for q in [v[0], v[1], v[0] + v[2], v[1] + v[3]] {
+                        if (q - q.round()).abs() < 1e-3 {
+                            return true;
+                        }
+                    }
+                }
+            }
+        }
+    }
     false
+}
+
+fn first_layer_ts(events: &[String]) -> Option<String> {
+    for e in events {
+        if e.contains("\"ev\":\"layer\"") {
+            if let Some(i) = e.rfind("\"ts\":") {
+                let rest = &e[i + 5..];
+                if let Some(j) = rest.find(']') {
+                    return Some(rest[..=j].to_string());
+                }
+            }
+        }
+    }
+    None
+}
+
+fn op_export_ts(payload: &str) -> String {
+    let (opts, doc) = payload.split_once('\t').unwrap_or(("", payload));
+    let tree = match parse_doc(opts, doc) {
+        Ok(t) => t,
+        Err(e) => return format!("{{\"error\":{}}}", esc(&e)),
+    };
+    let mut nodes = Vec::new();
+    walk(tree.root(), "", &mut nodes);
+    let mut items = Vec::new();
+    for (p, n) in &nodes {
+        let g = match n {
+            usvg::Node::Group(ref g) if g.should_isolate() => g,
+            _ => continue,
+        };
+        let lb = g.abs_layer_bounding_box();
+        for s in [1.0f32, 2.0] {
+            // filter cost grows steeply with the scale (feMorphology radius): the bookkeeping under test does not
+            // depend on the filters, scale 1 covers filtered groups
+            if s > 1.0 && !g.filters().is_empty() {
+                continue;
+            }
+            let w = (lb.width() * s).ceil();
+            let h = (lb.height() * s).ceil();
+            if !(w >= 1.0 && h >= 1.0 && w <= 1500.0 && h <= 1500.0) {
+                continue;
+            }
+            let mut pm = tiny_skia::Pixmap::new(w as u32, h as u32).unwrap();
+            resvg::verif_hooks::start_trace();
+            let r = resvg::render_node(n, Transform::from_scale(s, s), &mut pm.as_mut());
+            let ev = resvg::verif_hooks::take_trace();
+            let ts = first_layer_ts(&ev).unwrap_or_else(|| "null".to_string());
+            items.push(format!(
+                "{{\"path\":{},\"id\":{},\"scale\":{},\"none\":{},\"event_ts\":{},\"ts\":{},\"abs_ts\":{},\"lbbox\":{}}}",
+                esc(p), esc(n.id()), num(s), r.is_none(), ts, ts6(g.transform()), ts6(g.abs_transform()),
+                rect4(lb.x(), lb.y(), lb.width(), lb.height())
+            ));
+        }
+        if items.len() > 60 {
+            break;
+        }
+    }
+    format!("{{\"items\":[{}]}}", items.join(","))
+}
+
+fn op_node_by_id(payload: &str) -> String {
+    let f: Vec<&str> = payload.split('\t').collect();
+    if f.len() < 3 {
+        return "{\"error\":\"bad payload\"}".to_string();
+    }
+    let tree = match parse_doc(f[0], f[1]) {
+        Ok(t) => t,
+        Err(e) => return format!("{{\"error\":{}}}", esc(&e)),
+    };
+    let mut nodes = Vec::new();
+    walk(tree.root(), "", &mut nodes);
+    let mut bad = Vec::new();
+    let mut seen: Vec<&str> = Vec::new();
+    let mut nids = 0usize;
+    for (p, n) in &nodes {
+        let id = n.id();
+        if id.is_empty() || seen.contains(&id) {
+            continue;
+        }
+        seen.push(id);
+        nids += 1;
+        // `n` is the first node in pre-order with this id
+        match tree.node_by_id(id) {
+            Some(found) if std::ptr::eq(found, *n) => {}
+            Some(found) => bad.push(format!("{{\"id\":{},\"expected_path\":{},\"found_id\":{}}}", esc(id), esc(p), esc(found.id()))),
+            None => bad.push(format!("{{\"id\":{},\"expected_path\":{},\"found\":null}}", esc(id), esc(p))),
+        }
+    }
+    if tree.node_by_id("").is_some() {
+        bad.push("{\"id\":\"\",\"found\":\"some\"}".to_string());
+    }
+    let mut absent = 0usize;
+    for id in f[2].split(',') {
+        if id.is_empty() || seen.contains(&id) {
+            continue;
+        }
+        absent += 1;
+        if let Some(found) = tree.node_by_id(id) {
+            bad.push(format!("{{\"id\":{},\"expected\":null,\"found_id\":{},\"found_kind\":\"{}\"}}", esc(id), esc(found.id()), kind(found)));
+        }
+    }
+    format!("{{\"ids\":{},\"absent\":{},\"bad\":[{}]}}", nids, absent, bad.join(","))
+}
+
+pub fn dispatch(op: &str, _args: &[String]) -> bool {
+    match op {
+        "c19-write" => run_batch(op_write),
+        "export-pair" => run_batch(op_export_pair),
+        "export-ts" => run_batch(op_export_ts),
+        "node-by-id" => run_batch(op_node_by_id),
+        _ => return false,
+    }
+    true
 }
